@@ -404,7 +404,7 @@ func c19Run(ctx *core.Ctx) {
 		{"float", []string{"1.25", "NULL", "-0.126"}, ""},
 		{"bool", []string{"true", "false"}, ""},
 		{"string", []string{"a", "NULL", ""}, ""},
-		{"bytes", []string{"b", "NULL"}, ""},
+		{"bytes", []string{"b", "NULL", "cc"}, ""},
 		{"string", []string{"1.5", "NULL", "2.126"}, "stringtofloat"},
 	}
 	names := []string{"a", "b c", "z"}
